@@ -19,8 +19,7 @@ def main():
     ck.bounds = dict(tables='2x2 rows with 0..1 token and 1x2 / 2x1 rows with 1..2 tokens',
                      first_stage=['SizeFilter', 'PrefixFilter', 'PositionFilter', 'OverlapFilter'],
                      thresholds='grid', n_jobs='1, 2 (both stages)')
-    ck.outside += ['edit distance pipeline (join result contained in pipeline result): not built here, '
-                   'see DESIGN.md', 'tables beyond the bounds']
+    ck.outside += ['edit-distance strings longer than 2 characters', 'tables beyond the bounds']
     joins = ['jaccard_join', 'cosine_join', 'dice_join'] if quick else \
         ['jaccard_join', 'cosine_join', 'dice_join', 'overlap_coefficient_join', 'overlap_join']
     firsts = ['SizeFilter', 'PrefixFilter', 'PositionFilter', 'OverlapFilter']
@@ -35,6 +34,12 @@ def main():
             ck.e2('%s-%s-1x2' % (e, f), h_laws.make_pipeline(dict(
                 entry=e, first=f, nl=1, nr=2, k=2, kmin=1, thresholds=thr if e == 'overlap_join' else [0.5, 0.67],
                 comp_ops=['>='], n_jobs=[1])))
+    # edit distance: the join's result is contained in the pipeline's and they agree on pairs sharing a q-gram
+    from harness import h_ed
+    ck.e2('ed-pipeline', h_ed.make_rel(dict(law='pipeline', nl=1, nr=1, lens=[1, 2] if quick else [0, 1, 2],
+                                            q=[2], padding=[True], taus=[1] if quick else [0, 1, 2], props=['C07'])))
+    ck.e2('ed-pipeline-1x2', h_ed.make_rel(dict(law='pipeline', nl=1, nr=2, lens_l=[2], lens_r=[1], q=[2],
+                                                padding=[True], taus=[1], props=['C07'])))
     ck.finish()
 
 
